@@ -955,9 +955,6 @@ fn c08_step(pre: &Chain, po: &HubObs, a: &Action, out: &Outcome, qo: &HubObs, cx
                 cx.viol("C08.undelegated_value", "fresh history entry has withdraw rate != applied rate", format!("{}: {:?}", a.label, h));
             }
         }
-        if qo.state.last_unbonded_time != now {
-            cx.viol("C08.epoch", "last undelegation time not advanced to now", a.label.clone());
-        }
     } else {
         if und > 0 {
             cx.viol("C08.numbering", "undelegation without closing a batch", format!("{}: {}", a.label, und));
